@@ -94,10 +94,34 @@ Definition vn (k : kind) : nat :=
 (* zone abbreviations that denote UTC+0 — the only ones whose instant does not depend on a zone database *)
 Definition zones : list bytes := [B "UTC"; B "GMT"; B "WET"].
 
-Definition vals (k : kind) : list bytes :=
+(* every text the token can write: by definition ... *)
+Definition vals_spec (k : kind) : list bytes :=
   match k with
   | KZ3 => zones
   | _ => map (rv k) (zrange (vlo k) (vn k))
+  end.
+
+(* ... and the same lists built by enumerating digit strings instead of dividing (DateFmtP.vals_eq
+   shows they are equal; format_ok walks them for every token of every format) *)
+Definition digs10 : bytes := [x30; x31; x32; x33; x34; x35; x36; x37; x38; x39].
+Definition all2 : list bytes := flat_map (fun a => map (fun b => [a; b]) digs10) digs10.
+Definition sub {A} (lo n : nat) (l : list A) : list A := firstn n (skipn lo l).
+Definition all12 : list bytes := map (fun d => [d]) digs10 ++ skipn 10 all2.
+Definition hhmm : list (bytes * bytes) := flat_map (fun h => map (fun m => (h, m)) (firstn 60 all2)) (firstn 24 all2).
+Definition zone_vals (mk : byte -> bytes * bytes -> bytes) : list bytes :=
+  map (mk x2d) (rev (List.tl hhmm)) ++ map (mk x2b) hhmm.
+Definition vals (k : kind) : list bytes :=
+  match k with
+  | KYYYY => flat_map (fun a => flat_map (fun b => map (fun cd => a :: b :: cd) all2) digs10) [x31; x32]
+  | KYY => all2
+  | KMM => sub 1 12 all2 | KDD => sub 1 31 all2 | KHH => sub 0 24 all2 | Khh => sub 1 12 all2
+  | Kmm | Kss => sub 0 60 all2
+  | KM | Kh => sub 1 12 all12 | KD => sub 1 31 all12 | Km | Ks => sub 0 60 all12
+  | K_D => sub 1 31 (map (fun d => [x20; d]) digs10 ++ skipn 10 all2)
+  | KSSS => flat_map (fun a => map (fun bc => x2e :: a :: bc) all2) digs10
+  | KZ5 => zone_vals (fun sg p => sg :: fst p ++ x3a :: snd p)
+  | KZ4 => zone_vals (fun sg p => sg :: fst p ++ snd p)
+  | _ => vals_spec k
   end.
 Definition tvals (t : tok) : list bytes :=
   match t with
